@@ -3,48 +3,57 @@ From Coq Require Import ZArith QArith List Lia Lqa Setoid Morphisms.
 Import ListNotations.
 Open Scope Q_scope.
 
+(* [Qred] keeps the running sum in lowest terms (so that evaluation by vm_compute stays small); it is the
+   identity up to == *)
 Fixpoint qsum {A} (f : A -> Q) (l : list A) : Q :=
-  match l with [] => 0 | x :: r => f x + qsum f r end.
+  match l with [] => 0 | x :: r => Qred (f x + qsum f r) end.
+
+Lemma qsum_cons {A} (f : A -> Q) x r : qsum f (x :: r) == f x + qsum f r.
+Proof. cbn [qsum]. apply Qred_correct. Qed.
+Lemma qsum_nil {A} (f : A -> Q) : qsum f [] = 0.
+Proof. reflexivity. Qed.
+Global Opaque qsum.
 
 Lemma qsum_ext {A} (f g : A -> Q) l : (forall x, In x l -> f x == g x) -> qsum f l == qsum g l.
 Proof.
-  induction l as [|a l IH]; simpl; intros H; [reflexivity|].
-  rewrite (H a (or_introl eq_refl)), IH; [reflexivity|]. intros; apply H; now right.
+  induction l as [|a l IH]; intros H; [reflexivity|].
+  rewrite !qsum_cons, (H a (or_introl eq_refl)), IH; [reflexivity|]. intros; apply H; now right.
 Qed.
 
 Lemma qsum_plus {A} (f g : A -> Q) l : qsum (fun x => f x + g x) l == qsum f l + qsum g l.
-Proof. induction l as [|a l IH]; simpl; [ring|]. rewrite IH. ring. Qed.
+Proof. induction l as [|a l IH]; [rewrite !qsum_nil; ring|]. rewrite !qsum_cons, IH. ring. Qed.
 
 Lemma qsum_scal {A} (c : Q) (f : A -> Q) l : qsum (fun x => c * f x) l == c * qsum f l.
-Proof. induction l as [|a l IH]; simpl; [ring|]. rewrite IH. ring. Qed.
+Proof. induction l as [|a l IH]; [rewrite !qsum_nil; ring|]. rewrite !qsum_cons, IH. ring. Qed.
 
 Lemma qsum_scal_r {A} (c : Q) (f : A -> Q) l : qsum (fun x => f x * c) l == qsum f l * c.
-Proof. induction l as [|a l IH]; simpl; [ring|]. rewrite IH. ring. Qed.
+Proof. induction l as [|a l IH]; [rewrite !qsum_nil; ring|]. rewrite !qsum_cons, IH. ring. Qed.
 
 Lemma qsum_const {A} (c : Q) (l : list A) : qsum (fun _ => c) l == c * inject_Z (Z.of_nat (length l)).
 Proof.
-  induction l as [|a l IH]; cbn [qsum length]; [ring|].
-  rewrite IH, Nat2Z.inj_succ. unfold Z.succ. rewrite inject_Z_plus. ring.
+  induction l as [|a l IH]; [rewrite qsum_nil; cbn [length]; ring|]. cbn [length].
+  rewrite qsum_cons, IH, Nat2Z.inj_succ. unfold Z.succ. rewrite inject_Z_plus. ring.
 Qed.
 
 Lemma qsum_zero {A} (l : list A) : qsum (fun _ => 0) l == 0.
-Proof. induction l as [|a l IH]; simpl; [reflexivity|]. rewrite IH. ring. Qed.
+Proof. induction l as [|a l IH]; [reflexivity|]. rewrite qsum_cons, IH. ring. Qed.
 
 Lemma qsum_app {A} (f : A -> Q) l1 l2 : qsum f (l1 ++ l2) == qsum f l1 + qsum f l2.
-Proof. induction l1 as [|a l IH]; simpl; [ring|]. rewrite IH. ring. Qed.
+Proof. induction l1 as [|a l IH]; [rewrite qsum_nil; cbn [app]; ring|]. cbn [app]. rewrite !qsum_cons, IH. ring. Qed.
 
 Lemma qsum_map {A B} (h : A -> B) (f : B -> Q) l : qsum f (map h l) = qsum (fun x => f (h x)) l.
-Proof. induction l as [|a l IH]; simpl; congruence. Qed.
+Proof. Transparent qsum. induction l as [|a l IH]; cbn [qsum map]; [reflexivity|]. rewrite IH. reflexivity. Qed.
+Opaque qsum.
 
 Lemma qsum_nonneg {A} (f : A -> Q) l : (forall x, In x l -> 0 <= f x) -> 0 <= qsum f l.
 Proof.
-  induction l as [|a l IH]; simpl; intros H; [lra|].
+  induction l as [|a l IH]; intros H; [rewrite qsum_nil; lra|]. rewrite qsum_cons.
   assert (0 <= f a) by (apply H; now left). assert (0 <= qsum f l) by (apply IH; intros; apply H; now right). lra.
 Qed.
 
 Lemma qsum_le {A} (f g : A -> Q) l : (forall x, In x l -> f x <= g x) -> qsum f l <= qsum g l.
 Proof.
-  induction l as [|a l IH]; simpl; intros H; [lra|].
+  induction l as [|a l IH]; intros H; [rewrite !qsum_nil; lra|]. rewrite !qsum_cons.
   assert (f a <= g a) by (apply H; now left). assert (qsum f l <= qsum g l) by (apply IH; intros; apply H; now right). lra.
 Qed.
 
@@ -52,14 +61,14 @@ Qed.
 Lemma qsum_filter {A} (p : A -> bool) (f : A -> Q) l :
   qsum (fun x => if p x then f x else 0) l == qsum f (filter p l).
 Proof.
-  induction l as [|a l IH]; simpl; [reflexivity|]. destruct (p a); simpl; rewrite IH; ring.
+  induction l as [|a l IH]; [reflexivity|]. cbn [filter]. destruct (p a) eqn:E; rewrite ?qsum_cons, E, IH; ring.
 Qed.
 
 (* permutation invariance: accumulation order does not matter *)
 From Coq Require Import Permutation.
 Lemma qsum_perm {A} (f : A -> Q) l1 l2 : Permutation l1 l2 -> qsum f l1 == qsum f l2.
 Proof.
-  induction 1; simpl; try ring.
+  induction 1; rewrite ?qsum_cons; try ring.
   - rewrite IHPermutation. reflexivity.
   - rewrite IHPermutation1. exact IHPermutation2.
 Qed.
@@ -67,11 +76,18 @@ Qed.
 (* sum over a concatenation of blocks = sum of block sums *)
 Lemma qsum_concat {A} (f : A -> Q) (ls : list (list A)) :
   qsum f (concat ls) == qsum (fun l => qsum f l) ls.
-Proof. induction ls as [|l ls IH]; simpl; [reflexivity|]. rewrite qsum_app, IH. reflexivity. Qed.
+Proof. induction ls as [|l ls IH]; [reflexivity|]. cbn [concat]. rewrite qsum_app, qsum_cons, IH. reflexivity. Qed.
+
+Lemma Qsq_nonneg (a : Q) : 0 <= a * a.
+Proof.
+  destruct (Qlt_le_dec a 0) as [H|H].
+  - setoid_replace (a * a) with ((- a) * (- a)) by ring. apply Qmult_le_0_compat; lra.
+  - apply Qmult_le_0_compat; assumption.
+Qed.
 
 (* a sum of squares that vanishes has all terms zero on its support (used for TSS / variance) *)
 Lemma qsum_sq_nonneg {A} (f : A -> Q) l : 0 <= qsum (fun x => f x * f x) l.
-Proof. apply qsum_nonneg. intros x _. nra. Qed.
+Proof. apply qsum_nonneg. intros x _. apply Qsq_nonneg. Qed.
 
 Global Instance qsum_Proper {A} (l : list A) :
   Proper (pointwise_relation A Qeq ==> Qeq) (fun f => qsum f l).
